@@ -7,7 +7,8 @@ open Pyemv Pyemv.Gen
 
 theorem kd_derive_common_sk (mk r : Bytes) : Gen.kd.derive_common_sk mk r = deriveCommonSk mk r := by
   unfold Gen.kd.derive_common_sk deriveCommonSk
-  simp only [tools_ecb, tools_adjust, bind, Except.bind, pure, Except.pure]
+  try simp only [bind_pure]      -- `do let v ← e; pure v` is `e` (single-exit rewrites)
+  simp only [tools_ecb, tools_adjust, bind, Except.bind, pure, Except.pure, except_match_eta]
   repeat (first | rfl | split)
   all_goals first | (simp_all; done) | slice_forms
 
